@@ -46,6 +46,9 @@ def own_cases(tier, rng):
                 if tier == "quick" and rng.random() < 0.5: continue
                 cid = "owned/%s/n%d/op%d" % (tk, n, op)
                 cases.append(Case(cid, 'VF_CASE("%s", c07::owned<%s,%d,%d>)' % (cid, t, n, op), dict(type=t, n=n, op=op), size=n))
+        for n in ([3, 7, 16, 33, 513, 1025, 1100] if tier == "quick" else [1, 2, 3, 5, 7, 8, 9, 16, 17, 31, 33, 64, 100, 513, 1025, 1100, 2049]):
+            cid = "owned/%s/n%d/op3" % (tk, n)
+            cases.append(Case(cid, 'VF_CASE("%s", c07::owned<%s,%d,3>)' % (cid, t, n), dict(type=t, n=n, op=3), size=n))
     for tk, t in TYPES.items():
         for n in ([3, 4, 8, 16, 24, 32] if tier == "quick" else [1, 2, 3, 4, 5, 7, 8, 9, 15, 16, 17, 24, 32, 33, 48, 64]):
             for rank in (1, 3):
